@@ -76,6 +76,11 @@ def gillespie_part(chk, sis, entry):
         if not weighted:
             extra = [dict(t, weighted=True) for t in tasks if t["key"][2] == 2 and t["key"][3] == 2]
             tasks += extra
+        for k, t in enumerate(tasks):
+            if k % 9 == 4:
+                t["scale"] = 2.0 ** -40
+            elif k % 9 == 8:
+                t["scale"] = 2.0 ** 30
         expected_states = len(b1.all_keys(consts)) * len(b1.all_states(n, sis))
         if expected_states != eres.distinct:
             raise common.MachineryFailure("replay domain (%d states) differs from TLC's (%d)" % (expected_states, eres.distinct))
